@@ -106,6 +106,12 @@ def eval_composeinfo(case):
         for r in rels:
             r.pop("internal", None)
         exp.release.internal = False
+    if case.get("rot", 0) % 2:
+        # 'is_layered' is optional in a release dictionary (<bool=false>); a layered-product variant's release is layered
+        # whether or not the file spells it out
+        for v in pay["variants"].values():
+            if "release" in v:
+                v["release"].pop("is_layered", None)
     if has(steps, "layout", "variants"):
         for v in pay["variants"].values():
             v.pop("variants", None)
@@ -138,6 +144,10 @@ def eval_composeinfo(case):
     if case.get("probe"):
         return ["accepted"]
     fails = ["%s: %s" % (what, f) for f in ci_adapter.check_reread(obj, conc, exp, old)]
+    for n in obj["nodes"]:
+        if n["type"] == "layered-product" and old[conc.uid(n["path"])].release.is_layered is not True:
+            fails.append("%s: the release of layered-product variant %s is loaded with is_layered=%r (writing then turns it into True: "
+                         "the loaded and the re-loaded object differ)" % (what, conc.uid(n["path"]), old[conc.uid(n["path"])].release.is_layered))
     f2, _ = idempotence(ComposeInfo, old, what, "productmd.composeinfo")
     return (fails + f2)[:6]
 
@@ -293,6 +303,20 @@ def eval_treeinfo(case):
                     if ini.p.has_option(s, src):
                         ini.p.set(s, dst, ini.p.get(s, src))
                         ini.p.remove_option(s, src)
+    if ver > 0 and (case.get("rot", 0) // 3) % 2:
+        # the documented layout of child lists: 'variants' = child variants, 'addons' = child addons (the library's own
+        # writer puts every child under 'addons'; files written by other tools follow the format description)
+        for s in list(ini.p.sections()):
+            if (s.startswith("variant-") or s.startswith("addon-")) and ini.p.has_option(s, "addons"):
+                kids = [k for k in ini.p.get(s, "addons").split(",") if k]
+                typ = {k: ini.p.get([x for x in ini.p.sections() if x in ("variant-" + k, "addon-" + k)][0], "type") for k in kids}
+                add = [k for k in kids if typ[k] == "addon"]
+                var = [k for k in kids if typ[k] != "addon"]
+                ini.p.remove_option(s, "addons")
+                if add:
+                    ini.p.set(s, "addons", ",".join(add))
+                if var:
+                    ini.p.set(s, "variants", ",".join(var))
     if ver > 0 and case.get("rot", 0) % 2 and ini.p.has_option("tree", "build_timestamp"):
         # older writers stored time.time() as it came (the format says <int|float>): the whole seconds are the fact
         ini.p.set("tree", "build_timestamp", ini.p.get("tree", "build_timestamp") + ".68")
